@@ -220,9 +220,15 @@ type Resolver interface {
 
 // Compile combines a set of rules into a lexer.
 func Compile(rules []*Rule, scanBytes, allowBacktracking bool) (*Tables, error) {
+	return CompileStartConds(rules, 0 /*numStartConds*/, scanBytes, allowBacktracking)
+}
+
+// CompileStartConds is like Compile but guarantees that the resulting StateMap covers at least
+// numStartConds start conditions, including the ones that have no rules.
+func CompileStartConds(rules []*Rule, numStartConds int, scanBytes, allowBacktracking bool) (*Tables, error) {
 	var s status.Status
 	var index []int
-	var maxSC int
+	maxSC := max(numStartConds-1, 0)
 	c := newCompiler()
 	for _, r := range rules {
 		i, err := c.addPattern(r.Pattern, r)
